@@ -101,6 +101,46 @@ def shrink(ctx, bins, f):
             if v != "ok": return {"op": o, "impl": a, "model": b, "clause": v}
     return None
 
+UNSIGNED16 = ["u8", "u16"] + ["p%d" % n for n in range(1, 17)] + list(REFS)
+
+def abstract_tie(ctx, ops, impl):
+    """tie of the ABSTRACT float models of Props/C06Float (Lemmas/C06Float: fromF, toF, downNondivF) to the real code:
+    instantiated with the genuine IEEE roundings FloatSpec.binary32 / binary64 and evaluated by the Lean kernel, they must
+    return what channel_convert returned, on a seeded sample of the float-path conversions of this run"""
+    r, th = ctx.rng, ctx.thorough()
+    kinds = {"fromF": [], "toF": [], "down": []}
+    for o, obs in zip(ops, impl):
+        w = o.split()
+        if len(w) != 6 or "|" not in obs: continue
+        S, D = w[1], w[2]
+        if S == "f32" and D in UNSIGNED16: kinds["fromF"].append((o, obs))
+        elif D == "f32" and S in UNSIGNED16: kinds["toF"].append((o, obs))
+        elif S in UNSIGNED16 + ["u32"] and D in UNSIGNED16 + ["u32"] and INT[S][1] > INT[D][1] and INT[S][1] % INT[D][1] != 0:
+            kinds["down"].append((o, obs))
+    per_kind = 240 if th else 60
+    claims = {"ℤ": [], "ℚ": []}
+    for kind, cand in kinds.items():
+        if not cand: continue
+        for _ in range(per_kind):
+            o, obs = cand[r.below(len(cand))]
+            w = o.split(); S, D, s0, n, step = w[1], w[2], int(w[3]), int(w[4]), int(w[5])
+            rs = obs.split("|")[0].split()
+            if len(rs) != n: continue
+            try: vals = [int(x) for x in rs]
+            except ValueError: continue
+            for i in {0, n - 1, r.below(n), r.below(n)}:
+                s = s0 + i * step
+                if kind == "fromF":
+                    claims["ℤ"].append(("fromF FloatSpec.binary32 %d %s" % (INT[D][1], vlib.f32_to_rat(s)), str(vals[i]), o + " @%d" % s))
+                elif kind == "toF":
+                    claims["ℚ"].append(("toF FloatSpec.binary32 %d %d" % (INT[S][1], s), vlib.f32_to_rat(vals[i]), o + " @%d" % s))
+                else:
+                    claims["ℤ"].append(("downNondivF FloatSpec.binary64 %d %d %d" % (INT[S][1], INT[D][1], s), str(vals[i]), o + " @%d" % s))
+    for typ, cl in claims.items():
+        cl = list({c[0]: c for c in cl}.values())
+        vlib.kernel_tie(ctx, "C06Float-" + ("int" if typ == "ℤ" else "rat"), ["GilVerif.Props.C06Float"],
+                        ["GilVerif", "GilVerif.Lemmas.C06Float"], typ, cl)
+
 def run(ctx, ops=None):
     vlib.regen(ctx, C06_syms.NAMESPACE, C06_syms.SYMS)
     obligations, discharged = vlib.standard_proof_steps(ctx, extra_props=["GilVerif.Props.C06Float"])
@@ -117,6 +157,7 @@ def run(ctx, ops=None):
         jobs = []
         for g in sorted(by_group): jobs += parcorr.chunks(bins[g][0], by_group[g], 160)
         ops, impl, model = parcorr.correspond_parallel(ctx, "drv_C06", jobs)
+        if discharged == obligations: abstract_tie(ctx, ops, impl)
         if ctx.failures:
             # prefer a packed -> built-in failure (the shape of the historical defect) and shrink it to one value
             ctx.failures.sort(key=lambda f: (not (f["op"].split()[1].startswith("p") and f["op"].split()[2] in ("u8", "u16")), ))
@@ -133,7 +174,7 @@ def run(ctx, ops=None):
              "complete enumeration of every source value for every source of at most 16 bits, stratified windows/progressions/boundary windows for 32-bit and float32 sources; "
              "non-trivial = source and destination models differ (distinct op lines counted)",
         samples=samples, distinct_nontrivial=distinct, assumptions=ASSUME, trusted_base=vlib.TRUSTED_BASE,
-        extra={"values_judged": values, "type_pairs": ctx.cov.get("type_pairs", 0),
+        extra={"values_judged": values, "type_pairs": ctx.cov.get("type_pairs", 0), "kernel_tie": ctx.cov.get("kernel_tie"),
                "exhaustive_domains": ["every source value of u8, i8, u16, i16, packed 1..16, packed references x every destination model"]},
         exhaustive=False)
 
